@@ -4,6 +4,7 @@ import BigtreeModel.DagBridge
 import BigtreeProofs.Lemmas.DagBridgeBasic
 import BigtreeProofs.Lemmas.DagBridgeStep
 import BigtreeProofs.Lemmas.DagBridgeTransfer
+import BigtreeProofs.Lemmas.DagBridgeRun
 import BigtreeProofs.Properties.C10
 import BigtreeProofs.Properties.C16
 import BigtreeProofs.Properties.C17
@@ -24,7 +25,9 @@ adjacency lists are the store's `parents` / `children` lists as they are.  The t
 4. the documented effect of one call on the edge list of the graph: an assignment never removes or
    reorders edges and, when accepted, adds exactly the requested edges that were missing
    (`assign_edges`, list-exact: `setChildren_edges_exact`, `setParents_edges_exact`); a deletion filters
-   out exactly the named edges (`delete_edges`); a refused call changes nothing (`rejected_edges`).
+   out exactly the named edges (`delete_edges`); a refused call changes nothing (`rejected_edges`);
+5. whole histories: the final edge list is the replay of the documented effects of the accepted calls,
+   computed on edge lists alone (`step_refines`, `run_refines`).
 
 Everything is for all stores / histories / arguments; no size bound.
 -/
@@ -315,5 +318,54 @@ theorem rejected_edges {s : DStore} (hs : DWF s) {op : Op}
 
 example : (step true demo (.setParents 3 (.list [0, 1]) .post)).2 = .rej ∧
     (parentsLoop demo 3 [0, 1]).1.parents 3 = [2, 0, 1] := by decide
+
+/-! ## 5. whole histories, on edge lists alone
+
+`EState` = (number of nodes, names, edge list); `EState.apply g op` is the documented effect of an accepted
+call computed WITHOUT the adjacency tables: an assignment appends the asked-for edges that are missing,
+`del v.children` drops the edges out of `v`, `del v[name]` drops the edge to the unique child of that name,
+the constructor allocates the next id. -/
+
+/-- **one accepted call** (any operation, any argument): node count and names of the new store are those of
+the documented effect, and the edge list of the graph read off the new store is, up to order, the edge list
+the documented effect computes from the old one -/
+theorem step_refines {s : DStore} (hs : DWF s) (op : Op) (h : (step true s op).2 = .ok) (attrs : Nat → Attrs) :
+    ((estate s).apply op).n = (step true s op).1.n ∧
+    ((estate s).apply op).names = (step true s op).1.names ∧
+    (toDag (step true s op).1 attrs).edges.Perm ((estate s).apply op).E :=
+  let r := step_ok_rel hs (rel_estate s) op h
+  ⟨r.n, r.names, r.perm⟩
+
+example : (step true demo (.delItem 0 [])).2 = .rej ∧
+    (step true (run true (init 4 fun i => [Char.ofNat (97 + i)]) C10.demoOps).1 (.delItem 0 ['c'])).2 = .ok ∧
+    ((estate (run true (init 4 fun i => [Char.ofNat (97 + i)]) C10.demoOps).1).apply (.delItem 0 ['c'])).E
+      = [(0, 1), (1, 2), (2, 3)] := by decide
+
+/-- **whole histories** in which no constructor call raises (a raising constructor may leave a half-built
+node behind, see `assign_edges`): the graph read off the final store has, up to order, exactly the edges
+obtained by replaying the documented effects of the accepted calls — refused calls contribute nothing — on
+the empty edge list; the replay never looks at an adjacency table -/
+theorem run_refines (k : Nat) (names : Nat → Str) (ops : List Op) (attrs : Nat → Attrs)
+    (hx : NoRejConstruct (init k names) ops) :
+    let r := run true (init k names) ops
+    let g := (EState.mk k names []).replay (ops.zip r.2)
+    g.n = r.1.n ∧ g.names = r.1.names ∧ (toDag r.1 attrs).edges.Perm g.E := by
+  intro r g
+  have h0 : Rel (init k names) (EState.mk k names []) := by
+    refine ⟨rfl, rfl, ?_⟩
+    have : edges (init k names) = [] := by
+      simp [edges, init]
+    rw [this]
+  have := run_rel ops (init k names) _ (C10.dwf_init k names) h0 hx
+  exact ⟨this.n, this.names, this.perm⟩
+
+example : NoRejConstruct (init 4 fun _ => []) (C10.demoOps ++ [.setChildren 3 (.list [0]) .none, .delChildren 1]) := by
+  simp only [NoRejConstruct, C10.demoOps, List.cons_append, List.nil_append]
+  refine ⟨?_, ?_, ?_, ?_, ?_, ?_, trivial⟩ <;> (intro _ nm ps cs fp fc e; cases e)
+example :
+    let ops := C10.demoOps ++ [.setChildren 3 (.list [0]) .none, .delChildren 1]
+    ((EState.mk 4 (fun _ => []) []).replay (ops.zip (run true (init 4 fun _ => []) ops).2)).E
+      = [(0, 1), (2, 3), (0, 2)] ∧
+    edges (run true (init 4 fun _ => []) ops).1 = [(0, 1), (0, 2), (2, 3)] := by decide
 
 end DagBridge
